@@ -2,11 +2,14 @@
   Model of how a handle's context travels through derivations (gorm.go `getInstance`,
   `Session`, `WithContext`; statement.go `clone`).  The copy discipline is NOT written down
   here: it is read from the regenerated facts `Gen.cloneLiteral`, `Gen.getInstanceLiteral`,
-  `Gen.sessionSetsContext`, so the theorems are re-checked against what the code says now.
+  and -- for the bodies of `Session()` and `getInstance()` -- from the regenerated guarded
+  statement lists `Gen.sessionBody` / `Gen.getInstanceBody` (every statement with the condition
+  under which it executes), so the theorems are re-checked against what the code says now.
 -/
 import GormModel.Core.Facts
 import GormModel.Gen.CloneFacts
 import GormModel.Gen.Sessions
+import GormModel.Gen.SessionBody
 namespace Gorm
 
 /-- does `Statement.clone()` carry `Context` over? -/
@@ -15,6 +18,297 @@ def cloneKeepsContext : Bool := Gen.cloneLiteral.contains ("Context", "stmt.Cont
 def getInstanceKeepsContext : Bool := Gen.getInstanceLiteral.contains ("Context", "db.Statement.Context")
 def cloneKeepsConnPool : Bool := Gen.cloneLiteral.contains ("ConnPool", "stmt.ConnPool")
 def getInstanceKeepsConnPool : Bool := Gen.getInstanceLiteral.contains ("ConnPool", "db.Statement.ConnPool")
+
+/-! ## symbolic execution of the regenerated bodies -/
+
+/-- where the context found on a statement came from -/
+inductive CtxSym where
+  | parent    -- the context the receiver's statement carried when the function was entered
+  | config    -- `config.Context` of the Session literal
+  | lost      -- anything else (a field the copy dropped, a fresh zero value, …)
+deriving Repr, DecidableEq
+
+/-- three-valued evaluation of a source condition; `none` = the model cannot tell -/
+def SrcCond.eval (atomVal : String → Option Bool) : SrcCond → Option Bool
+  | .atom s => atomVal s
+  | .opaque _ => none
+  | .not c => (c.eval atomVal).map (!·)
+  | .and a b =>
+    match a.eval atomVal, b.eval atomVal with
+    | some false, _ => some false
+    | _, some false => some false
+    | some true, some true => some true
+    | _, _ => none
+  | .or a b =>
+    match a.eval atomVal, b.eval atomVal with
+    | some true, _ => some true
+    | _, some true => some true
+    | some false, some false => some false
+    | _, _ => none
+
+def evalPath (atomVal : String → Option Bool) : List SrcCond → Option Bool
+  | [] => some true
+  | c :: cs =>
+    match c.eval atomVal, evalPath atomVal cs with
+    | some false, _ => some false
+    | _, some false => some false
+    | some true, some true => some true
+    | _, _ => none
+
+/-! ### gorm.go `getInstance()` from its body -/
+
+/-- what a statement of `getInstance` does to the statement / context of the returned handle -/
+inductive GiAct where
+  | newTx                  -- `tx := &DB{Config: db.Config, Error: db.Error}` (no statement yet)
+  | fresh (keeps : Bool)   -- `tx.Statement = &Statement{…}`; keeps = the literal has `Context: db.Statement.Context`
+  | viaClone               -- `tx.Statement = db.Statement.clone()`
+  | retTx                  -- `return tx`
+  | retDb                  -- `return db`
+  | unknown (src : String)
+deriving Repr, DecidableEq
+
+/-- an assignment the context flow depends on: the handle, its statement, its clone mode, any
+    `Context` field, the receiver or the config literal -/
+def relevantWrite (w : List String) : Bool :=
+  w == ["tx"] || w == ["tx", "Statement"] || w == ["tx", "clone"] || w.getLast? == some "Context" ||
+  w == ["db"] || w == ["db", "Statement"] || w == ["db", "clone"] || w.head? == some "config"
+
+def classifyGi (s : GStmt) : Option GiAct :=
+  if s.kind == "assign" && s.lhs == [["tx"]] && s.rhs == ["&DB{}"] && !(s.lit.any (·.1 == "Statement")) then some .newTx
+  else if s.kind == "assign" && s.lhs == [["tx", "Statement"]] && s.rhs == ["&Statement{}"] then
+    some (.fresh (s.lit.contains ("Context", "db.Statement.Context")))
+  else if s.kind == "assign" && s.lhs == [["tx", "Statement"]] && s.rhs == ["db.Statement.clone()"] then some .viaClone
+  else if s.kind == "return" then
+    (if s.rhs == ["tx"] then some .retTx else if s.rhs == ["db"] then some .retDb else some (.unknown s.src))
+  else if s.writes.any relevantWrite then some (.unknown s.src)
+  else none
+
+structure GiState where
+  ctx : Option CtxSym := none      -- context on tx.Statement (none: tx has no statement yet)
+  result : Option CtxSym := none   -- context on the returned handle's statement
+  returned : Bool := false
+  bad : List String := []
+deriving Repr, DecidableEq
+
+def GiState.exec (st : GiState) (g : Option Bool) (a : GiAct) : GiState :=
+  if st.returned then st else
+  match g with
+  | some false => st
+  | none => { st with bad := st.bad ++ ["statement under a condition the model cannot evaluate"] }
+  | some true =>
+    match a with
+    | .newTx => { st with ctx := none }
+    | .fresh keeps => { st with ctx := some (if keeps then .parent else .lost) }
+    | .viaClone => { st with ctx := some (if cloneKeepsContext then .parent else .lost) }
+    | .retTx => { st with returned := true, result := some (st.ctx.getD .lost) }
+    | .retDb => { st with returned := true, result := some .parent }
+    | .unknown s => { st with bad := st.bad ++ [s] }
+
+/-- atoms of `getInstance`'s conditions in terms of `db.clone` -/
+def giAtom (pos one : Bool) : String → Option Bool
+  | "db.clone > 0" => some pos
+  | "db.clone == 1" => some one
+  | _ => none
+
+def giRunB (pos one : Bool) : GiState :=
+  Gen.getInstanceBody.foldl
+    (fun st s => match classifyGi s with
+      | none => st
+      | some a => st.exec (evalPath (giAtom pos one) s.path) a) {}
+
+/-- context (symbolically) on the statement of `db.getInstance()` for a receiver with this `clone` -/
+def giCtx (clone : Nat) : CtxSym :=
+  let r := giRunB (decide (clone > 0)) (clone == 1)
+  if r.bad.isEmpty && r.returned then r.result.getD .lost else .lost
+
+/-! ### gorm.go `Session()` from its body -/
+
+inductive SessFlag where
+  | dryRun | prepareStmt | newDB | initialized | skipHooks | skipDefaultTransaction
+  | disableNestedTransaction | allowGlobalUpdate | fullSaveAssociations | propagateUnscoped
+  | queryFields | hasContext | hasLogger | hasNowFunc | batchSizePos
+deriving Repr, DecidableEq
+
+/-- the run-time value of a `Session{…}` literal, as far as `Session()` tests it: one Boolean per
+    field (`hasContext` = `Context != nil`, `hasLogger` = `Logger != nil`, `hasNowFunc` =
+    `NowFunc != nil`, `batchSizePos` = `CreateBatchSize > 0`) -/
+abbrev SessFlags := SessFlag → Bool
+
+def SessFlags.get (f : SessFlags) (x : SessFlag) : Bool := f x
+
+/-- the flag valuation in which exactly the listed flags are set -/
+def SessFlags.ofList (l : List SessFlag) : SessFlags := fun f => l.contains f
+
+def SessFlags.withCtx (fl : SessFlags) (b : Bool) : SessFlags := fun f => if f = .hasContext then b else fl f
+
+def allFlags : List SessFlag :=
+  [.dryRun, .prepareStmt, .newDB, .initialized, .skipHooks, .skipDefaultTransaction, .disableNestedTransaction,
+   .allowGlobalUpdate, .fullSaveAssociations, .propagateUnscoped, .queryFields, .hasContext, .hasLogger,
+   .hasNowFunc, .batchSizePos]
+
+/-- the fields of `type Session struct` this model knows (compared with the regenerated
+    `Gen.sessionFieldTypes` by `C18_session_fields`) -/
+def knownSessionFields : List (String × String) :=
+  [("DryRun", "bool"), ("PrepareStmt", "bool"), ("NewDB", "bool"), ("Initialized", "bool"), ("SkipHooks", "bool"),
+   ("SkipDefaultTransaction", "bool"), ("DisableNestedTransaction", "bool"), ("AllowGlobalUpdate", "bool"),
+   ("FullSaveAssociations", "bool"), ("PropagateUnscoped", "bool"), ("QueryFields", "bool"),
+   ("Context", "context.Context"), ("Logger", "logger.Interface"), ("NowFunc", "func() time.Time"),
+   ("CreateBatchSize", "int")]
+
+/-- which flag a source atom of `Session()` tests -/
+def sessAtom : String → Option SessFlag
+  | "config.DryRun" => some .dryRun
+  | "config.PrepareStmt" => some .prepareStmt
+  | "config.NewDB" => some .newDB
+  | "config.Initialized" => some .initialized
+  | "config.SkipHooks" => some .skipHooks
+  | "config.SkipDefaultTransaction" => some .skipDefaultTransaction
+  | "config.DisableNestedTransaction" => some .disableNestedTransaction
+  | "config.AllowGlobalUpdate" => some .allowGlobalUpdate
+  | "config.FullSaveAssociations" => some .fullSaveAssociations
+  | "config.PropagateUnscoped" => some .propagateUnscoped
+  | "config.QueryFields" => some .queryFields
+  | "config.Context != nil" => some .hasContext
+  | "config.Logger != nil" => some .hasLogger
+  | "config.NowFunc != nil" => some .hasNowFunc
+  | "config.CreateBatchSize > 0" => some .batchSizePos
+  | _ => none
+
+/-- condition with the atoms resolved once (so that evaluating it for all flag values is cheap) -/
+inductive CCond where
+  | flag (f : SessFlag)
+  | unknown
+  | not (c : CCond)
+  | and (a b : CCond)
+  | or (a b : CCond)
+deriving Repr, DecidableEq
+
+def SrcCond.compile : SrcCond → CCond
+  | .atom s => match sessAtom s with | some f => .flag f | none => .unknown
+  | .opaque _ => .unknown
+  | .not c => .not c.compile
+  | .and a b => .and a.compile b.compile
+  | .or a b => .or a.compile b.compile
+
+def CCond.eval (fl : SessFlags) : CCond → Option Bool
+  | .flag f => some (fl.get f)
+  | .unknown => none
+  | .not c => (c.eval fl).map (!·)
+  | .and a b =>
+    match a.eval fl, b.eval fl with
+    | some false, _ => some false
+    | _, some false => some false
+    | some true, some true => some true
+    | _, _ => none
+  | .or a b =>
+    match a.eval fl, b.eval fl with
+    | some true, _ => some true
+    | _, some true => some true
+    | some false, some false => some false
+    | _, _ => none
+
+def evalCPath (fl : SessFlags) : List CCond → Option Bool
+  | [] => some true
+  | c :: cs =>
+    match c.eval fl, evalCPath fl cs with
+    | some false, _ => some false
+    | _, some false => some false
+    | some true, some true => some true
+    | _, _ => none
+
+/-- what a statement of `Session()` does to the new handle's statement / context -/
+inductive SAct where
+  | init         -- `tx = &DB{…, Statement: db.Statement, …, clone: 1}`: the statement is SHARED with the receiver
+  | cloneStmt    -- `tx.Statement = tx.Statement.clone()`: private copy
+  | setCtx       -- `tx.Statement.Context = config.Context`
+  | setClone2    -- `tx.clone = 2`
+  | getInst      -- `tx = tx.getInstance()`
+  | ret          -- `return tx`
+  | unknown (src : String)   -- writes the handle / statement / a context in a way the model does not know
+deriving Repr, DecidableEq
+
+def classifySess (s : GStmt) : Option SAct :=
+  if s.kind == "assign" && s.lhs == [["tx"]] && s.rhs == ["&DB{}"] &&
+      s.lit.contains ("Statement", "db.Statement") && s.lit.contains ("clone", "1") then some .init
+  else if s.kind == "assign" && s.lhs == [["tx", "Statement"]] && s.rhs == ["tx.Statement.clone()"] then some .cloneStmt
+  else if s.kind == "assign" && s.lhs == [["tx", "Statement", "Context"]] && s.rhs == ["config.Context"] then some .setCtx
+  else if s.kind == "assign" && s.lhs == [["tx", "clone"]] && s.rhs == ["2"] then some .setClone2
+  else if s.kind == "assign" && s.lhs == [["tx"]] && s.rhs == ["tx.getInstance()"] then some .getInst
+  else if s.kind == "return" then (if s.rhs == ["tx"] then some .ret else some (.unknown s.src))
+  else if s.writes.any relevantWrite then some (.unknown s.src)
+  else none
+
+/-- `Session()` reduced to the statements that matter for the context, guards resolved -/
+def sessionProg : List (List CCond × SAct) :=
+  Gen.sessionBody.filterMap (fun s => (classifySess s).map (fun a => (s.path.map SrcCond.compile, a)))
+
+structure SessState where
+  stmt : CtxSym := .lost          -- context on tx.Statement
+  parentStmt : CtxSym := .parent  -- context on the RECEIVER's statement (must stay `.parent`)
+  shared : Bool := false          -- tx.Statement is still the receiver's statement object
+  clone : Nat := 0
+  inited : Bool := false
+  returned : Bool := false
+  bad : List String := []
+deriving Repr, DecidableEq
+
+/-- `getInstance()` applied to the handle under construction -/
+def SessState.getInst (st : SessState) : SessState :=
+  if st.clone = 0 then st
+  else { st with stmt := (match giCtx st.clone with | .parent => st.stmt | _ => .lost), shared := false, clone := 0 }
+
+def SessState.exec (st : SessState) (g : Option Bool) (a : SAct) : SessState :=
+  if st.returned then st else
+  match g with
+  | some false => st
+  | none => { st with bad := st.bad ++ ["statement under a condition the model cannot evaluate"] }
+  | some true =>
+    match a with
+    | .init => { st with stmt := .parent, shared := true, clone := 1, inited := true }
+    | .cloneStmt => if st.inited then { st with stmt := if cloneKeepsContext then st.stmt else .lost, shared := false }
+                    else { st with bad := st.bad ++ ["clone before init"] }
+    | .setCtx => if st.inited then { st with stmt := .config, parentStmt := if st.shared then .config else st.parentStmt }
+                 else { st with bad := st.bad ++ ["set before init"] }
+    | .setClone2 => { st with clone := 2 }
+    | .getInst => if st.inited then st.getInst else { st with bad := st.bad ++ ["getInstance before init"] }
+    | .ret => { st with returned := true }
+    | .unknown s => { st with bad := st.bad ++ [s] }
+
+def runSess (prog : List (List CCond × SAct)) (fl : SessFlags) : SessState :=
+  prog.foldl (fun st ga => st.exec (evalCPath fl ga.1) ga.2) {}
+
+/-- summary of one `Session(&Session{…})` call with these flag values -/
+def sessionRun (fl : SessFlags) : SessState := runSess sessionProg fl
+
+def SessState.ok (st : SessState) : Bool := st.bad.isEmpty && st.returned && st.inited
+
+/-- the context the NEXT `getInstance()` on the returned handle puts on the statement it works with -/
+def SessState.next (st : SessState) : CtxSym := if st.ok then st.getInst.stmt else .lost
+
+/-! ### the finitely many flag valuations that matter -/
+
+def CCond.flags : CCond → List SessFlag
+  | .flag f => [f]
+  | .unknown => []
+  | .not c => c.flags
+  | .and a b => a.flags ++ b.flags
+  | .or a b => a.flags ++ b.flags
+
+def pathFlags : List CCond → List SessFlag
+  | [] => []
+  | c :: cs => c.flags ++ pathFlags cs
+
+/-- every flag some guard of the program tests (plus `hasContext`) -/
+def progFlags : List (List CCond × SAct) → List SessFlag
+  | [] => [.hasContext]
+  | ga :: rest => pathFlags ga.1 ++ progFlags rest
+
+/-- all sub-lists: every way of switching the flags of `l` on or off -/
+def flagSubsets : List SessFlag → List (List SessFlag)
+  | [] => [[]]
+  | f :: fs => flagSubsets fs ++ (flagSubsets fs).map (f :: ·)
+
+/-! ## handles and derivation paths -/
 
 /-- abstract handle: the context bound to its statement (0 = context.Background / lost) and `clone` -/
 structure Handle where
@@ -32,27 +326,29 @@ def SessionUse.newDB (u : SessionUse) : Bool :=
 def ownContextExprs : List String := ["db.Statement.Context", "tx.Statement.Context"]
 
 inductive Deriv where
-  | getInstance                      -- any chain method / finisher entry
-  | session (u : SessionUse)         -- an internal `X.Session(&Session{…})` call site
-deriving Repr
+  | getInstance                                  -- any chain method / finisher entry
+  | session (u : SessionUse) (fl : SessFlags)    -- an internal `X.Session(&Session{…})` call site; `fl` = whatever its flag expressions evaluate to
+  | userSession (fl : SessFlags) (c : Nat)       -- the CALLER's `Session(&Session{…})` / `WithContext(c)`; `c` is used iff `fl .hasContext`
 
-/-- one derivation step.  `Session` shares or clones the statement; with a `Context:` field it
-    assigns that expression (the receiver's own context for internal sites, see C18_sessions);
-    without one the statement's context is whatever `clone()` copies. -/
+def CtxSym.concrete (parent cfg : Nat) : CtxSym → Nat
+  | .parent => parent
+  | .config => cfg
+  | .lost => 0
+
+/-- handle returned by `h.Session(cfg)` according to the regenerated body -/
+def Handle.afterSession (h : Handle) (fl : SessFlags) (cfgCtx : Nat) : Handle :=
+  let r := sessionRun fl
+  if r.ok then { ctx := r.stmt.concrete h.ctx cfgCtx, clone := r.clone } else { ctx := 0, clone := r.clone }
+
+/-- one derivation step. -/
 def Handle.step (h : Handle) : Deriv → Handle
   | .getInstance =>
-    if h.clone = 0 then h
-    else if h.clone = 1 then { ctx := if getInstanceKeepsContext then h.ctx else 0, clone := 0 }
-    else { ctx := if cloneKeepsContext then h.ctx else 0, clone := 0 }
-  | .session u =>
-    let cl := if u.newDB then 1 else 2
+    if h.clone = 0 then h else { ctx := (giCtx h.clone).concrete h.ctx 0, clone := 0 }
+  | .session u fl =>
     match u.ctxField with
-    | none => { ctx := h.ctx, clone := cl }   -- statement shared (or cloned for SkipHooks/PrepareStmt: see below)
-    | some e =>
-      if ownContextExprs.contains e then
-        -- `config.Context != nil` ⇒ statement cloned, then `tx.Statement.Context = config.Context`
-        { ctx := if Gen.sessionSetsContext then h.ctx else (if cloneKeepsContext then h.ctx else 0), clone := cl }
-      else { ctx := 0, clone := cl }
+    | none => h.afterSession (fl.withCtx false) 0
+    | some e => h.afterSession (fl.withCtx true) (if ownContextExprs.contains e then h.ctx else 0)
+  | .userSession fl c => h.afterSession fl (if fl .hasContext then c else 0)
 
 /-- a Session call that clones the statement without a Context field (SkipHooks / PrepareStmt):
     context is what `clone()` copies -/
